@@ -22,8 +22,8 @@ CATS = ("pr-delivery", "pr-postheal", "delivery", "stall", "livelock", "exceptio
 
 def plan(tier):
     if tier == "thorough":
-        return dict(cases=32000, shards=16, timeout=1800, min_nontrivial=3000)
-    return dict(cases=640, shards=16, timeout=240, min_nontrivial=60)
+        return dict(cases=128000, shards=16, timeout=3400, min_nontrivial=12000)
+    return dict(cases=2560, shards=16, timeout=400, min_nontrivial=240)
 
 
 def run_case(index, rng, tier):
